@@ -7,5 +7,5 @@ git -C /repo apply "$patch" || exit 9
 for p in "$@"; do
   (cd /verif && bin/check $p $tier 2>&1 | grep -E "^VIOLATION|^KNOWN|^NOT-REPRO|^INCONCLUSIVE|^check " | cut -c1-260)
 done
-git -C /repo checkout -- .
+git -C /repo checkout -- . && (cd /verif && bin/setup >/dev/null 2>&1)
 git -C /repo status --short | head -3
